@@ -241,6 +241,45 @@ def gen_case(rng, size=None):
     return case
 
 
+def finder_case(rng):
+    """directed: devices whose OPTIONAL index field is resolved by a DeviceFinder (FLoad.busf, ACEc.busf, PVD1.busf)
+    on one bus -- some leave the field empty (a meter is found or added for the bus), some name an existing meter
+    on another bus explicitly -- in a random order, with and without a meter already sitting on the shared bus"""
+    def ix(kind, k):
+        st = rng.choice(['int', 'str', 'auto'])
+        return {'int': 10 * (k + 1) + rng.randrange(0, 9), 'str': '%s_%d' % (kind, k + rng.randrange(1, 5)), 'auto': None}[st]
+    adds = []
+
+    def add(model, idx, params):
+        ref = None if idx is not None else 'auto%d' % len(adds)
+        adds.append({'model': model, 'idx': idx, 'params': params, 'ref': ref})
+        return idx if idx is not None else {'auto': ref}
+    nb = rng.choice([2, 3])
+    buses = [add('Bus', ix('B', k), {}) for k in range(nb)]
+    add('Slack', None, {'bus': buses[0]})
+    shared, other = buses[0], buses[1]
+    pq = add('PQ', ix('PQ', 0), {'bus': shared})
+    remote = add('BusFreq', rng.choice(['BF_remote', 77, None]), {'bus': other})
+    if rng.random() < 0.4:
+        add('BusFreq', None, {'bus': shared})            # a meter already on the shared bus: found, not added
+    kind = rng.choice(['FLoad', 'FLoad', 'ACEc', 'PVD1'])
+    users = []
+    pattern = rng.choice([[0, 1], [1, 0], [0, 1, 0], [0, 0, 1], [1, 0, 1], [0, 1, 1]])   # 1 = explicit field
+    if kind == 'PVD1':
+        pv = add('PV', ix('G', 0), {'bus': shared})
+    for e in pattern:
+        if kind == 'FLoad':
+            prm = {'pq': pq}
+        elif kind == 'ACEc':
+            prm = {'bus': shared}
+        else:
+            prm = {'bus': shared, 'gen': pv, 'pqflag': 1.0}
+        if e:
+            prm['busf'] = remote
+        users.append(add(kind, None, prm))
+    return {'adds': adds, 'collate': [], 'outputs': [], 'nget': 4, 'gseed': rng.randrange(1 << 30), 'size': 'finder'}
+
+
 # ------------------------------------------------------------------ real code
 
 def build(case):
@@ -460,6 +499,7 @@ def run_case(case):
         else:
             bad.append(('link-error-logged', 'set_address logged an error and went on: ' + e))
     bad += oracle_links(ss, incompatible)
+    bad += oracle_inputs(ss, case, auto)
     bad += oracle_values(ss)
     g = 'G ' + ' '.join(do_get(ss, x) for x in gets)
     impl = 'A %s | B %s | %s | %s' % (dA, dB, o, g)
@@ -559,6 +599,7 @@ def oracle_links(ss, incompatible=()):
     """an external variable / parameter resolves to the device named by the index field"""
     import numpy as np
     from andes.core.param import ExtParam, IdxParam
+    from andes.core.service import DeviceFinder
     bad = []
     for mn, m in ss.models.items():
         if m.n == 0 or not hasattr(m, 'idx'):
@@ -567,6 +608,14 @@ def oracle_links(ss, incompatible=()):
             if e.indexer is None or (mn, en) in incompatible:
                 continue
             ids = flat(e.indexer.v)
+            given = set()
+            if isinstance(e.indexer, DeviceFinder):
+                # the finder may only fill in EMPTY or INVALID fields: a field that was given and names an existing
+                # device of the target is the index the borrowed variable has to follow
+                for k, gv in enumerate(e.indexer.u.v):
+                    if gv is not None and k < len(ids) and len(owner_of(ss, e.model, gv)) == 1:
+                        ids[k] = gv
+                        given.add(k)
             if len(ids) != len(e.a):
                 bad.append(('ext-length', '%s.%s: %d addresses for %d indices' % (mn, en, len(e.a), len(ids))))
                 continue
@@ -580,7 +629,7 @@ def oracle_links(ss, incompatible=()):
                 om, u = hits[0]
                 src = om.__dict__[e.src]
                 if len(src.a) <= u or int(src.a[u]) != int(e.a[k]):
-                    bad.append(('ext-wrong-device', '%s.%s[%d] (idx %r) has address %d, %s.%s of that device has %s'
+                    bad.append(('given-index-field-overridden' if k in given else 'ext-wrong-device', '%s.%s[%d] (idx %r) has address %d, %s.%s of that device has %s'
                                 % (mn, en, k, i, int(e.a[k]), om.class_name, e.src,
                                    int(src.a[u]) if len(src.a) > u else None)))
         for pn, p in m.params_ext.items():
@@ -613,6 +662,45 @@ def oracle_links(ss, incompatible=()):
                     bad.append(('extparam-wrong-device', '%s.%s[%d] (idx %r) = %r, %s.%s of that device = %r'
                                 % (mn, pn, k, i, a, om.class_name, p.src, b)))
     return bad[:6]
+
+
+def oracle_inputs(ss, case, auto):
+    """an index field that was GIVEN and names an existing device of its target still names that device after
+    setup and addressing (services such as DeviceFinder may only fill in empty or invalid fields), and the
+    variables borrowed through it sit on that device's slots"""
+    from andes.core.param import IdxParam
+    bad = []
+
+    def res(v):
+        return auto[v['auto']] if isinstance(v, dict) else v
+
+    def same(j, i):
+        if isinstance(j, str) or isinstance(i, str):
+            return isinstance(j, str) and isinstance(i, str) and j == i
+        return j == i
+    for a in case['adds']:
+        m = ss.models[a['model']]
+        my = a['idx'] if a['idx'] is not None else auto.get(a['ref'])
+        pos = [k for k, j in enumerate(m.idx.v) if same(j, my)]
+        if len(pos) != 1:
+            continue
+        for pn, v in a['params'].items():
+            p = m.params.get(pn)
+            if not isinstance(p, IdxParam) or p.model is None or v is None:
+                continue
+            want = res(v)
+            if p.model not in ss.models and p.model not in ss.groups:
+                continue
+            if len(owner_of(ss, p.model, want)) != 1:
+                continue
+            got = p.v[pos[0]]
+            if hasattr(got, 'item'):
+                got = got.item()
+            if not same(got, want):
+                bad.append(('given-index-field-overridden', '%s %r was given %s=%r, which names an existing %s; after '
+                            'setup the field reads %r and its borrowed variables follow that device'
+                            % (a['model'], my, pn, want, p.model, got)))
+    return bad[:4]
 
 
 def oracle_values(ss):
